@@ -14,11 +14,13 @@ PLAN = dict(
     floor=dict(quick=300, thorough=2000),
     tiers=dict(
         quick=[det("rel", H, "cs-rel", 16, 220, 4, tso=True, time_cap=30),
+               det("rel-afault", H, "cs-rel", 16, 120, 4, tso=False, time_cap=30, args=["--afault"]),
                det("dbg", H, "cs-dbg", 16, 100, 4, tso=True, time_cap=25),
                det("witness-abort-window", H, "cs-rel", 1, 30, 6, time_cap=60, args=["--witness"]),
                det("witness-dead-slot", H, "cs-rel", 1, 5, 2, time_cap=30, args=["--witness2"]),
                tsan("C09", 4, 80)],
         thorough=[det("rel", H, "cs-rel", 16, 6000, 5, tso=True, time_cap=300),
+                  det("rel-afault", H, "cs-rel", 16, 2500, 5, tso=True, time_cap=200, args=["--afault"]),
                   det("dbg", H, "cs-dbg", 16, 2500, 5, tso=True, time_cap=200),
                   det("enum-wake", H, "cs-rel", 16, 300, 2, tso=True, time_cap=100, enum="wake", enum_cap=100),
                   det("enum-sbload", H, "cs-rel", 16, 300, 2, tso=True, time_cap=100, enum="sbload", enum_cap=100),
